@@ -3,7 +3,7 @@
 # Prints the check's output; exit status 1 = violation reported (the mutation was caught).
 set -u
 patch=$(readlink -f "$1"); id=$2; tier=${3:-quick}
-wt=$(mktemp -d /tmp/mutwt.XXXXXX)
+wt=$(mktemp -d /tmp/mutwt-XXXXXX)
 git -C /repo worktree add -q --detach "$wt" HEAD || exit 3
 if ! git -C "$wt" apply "$patch"; then echo "patch does not apply"; git -C /repo worktree remove --force "$wt"; exit 3; fi
 cd /verif
